@@ -345,12 +345,50 @@ theorem dft_latency (i : DftIn) (hL : 0 < i.L) :
 theorem dft_lin_numTaps (i : DftIn) (hl : i.lin = true) :
     (dftStageInit i).numTaps = roundTaps i.nRaw (designK true i.L i.fnEqL) ∧
     (dftStageInit i).postPeak = roundTaps i.nRaw (designK true i.L i.fnEqL) / 2 := by
-  simp [dftStageInit, hl]
+  simp [dftStageInit, dftStageInitWith, hl]
 
 theorem dft_nonlin (i : DftIn) (hl : i.lin = false) :
-    (dftStageInit i).numTaps = i.tpLen ∧ (dftStageInit i).postPeak = i.tpPost ∧ (dftStageInit i).k = 4 ∧
+    (dftStageInit i).numTaps = i.tpLen + tapPad i.L i.tpLen ∧ (dftStageInit i).postPeak = i.tpPost + tapPad i.L i.tpLen ∧
+    (dftStageInit i).padTaps = tapPad i.L i.tpLen ∧ (dftStageInit i).k = 4 ∧
     (dftStageInit i).nDesign = roundTaps i.nRaw 4 := by
-  simp [dftStageInit, hl, designK]
+  simp [dftStageInit, dftStageInitWith, hl, designK]
+
+/-- before the repair: the transformed length and peak position are used as they come -/
+theorem dftPre_nonlin (i : DftIn) (hl : i.lin = false) :
+    (dftStageInitPreF1 i).numTaps = i.tpLen ∧ (dftStageInitPreF1 i).postPeak = i.tpPost := by
+  simp [dftStageInitPreF1, dftStageInitWith, hl]
+
+/-- the tap padding makes `L ∣ num_taps - 1` -/
+theorem tapPad_dvd (L n : Nat) (hp : isPow2L L = true) (hn : 1 ≤ n) : L ∣ (n + tapPad L n) - 1 := by
+  unfold tapPad
+  rw [hp, Bool.true_and]
+  by_cases h : (n - 1) % L = 0
+  · simp [h]
+    exact Nat.dvd_of_mod_eq_zero h
+  · have hb : ((n - 1) % L != 0) = true := by simp [h]
+    rw [if_pos hb]
+    have hL : 0 < L := by
+      rcases Nat.eq_zero_or_pos L with h0 | h0
+      · subst h0; simp [isPow2L] at hp
+      · exact h0
+    have hlt := Nat.mod_lt (n - 1) hL
+    have hdm := Nat.div_add_mod (n - 1) L
+    refine ⟨(n - 1) / L + 1, ?_⟩
+    rw [Nat.mul_add, Nat.mul_one]
+    omega
+
+/-- … adds less than `L` taps, and nothing when `L` already divides -/
+theorem tapPad_lt (L n : Nat) (hL : 0 < L) : tapPad L n < L := by
+  unfold tapPad
+  split
+  · rename_i h
+    simp only [Bool.and_eq_true, bne_iff_ne, ne_eq] at h
+    have := Nat.mod_lt (n - 1) hL
+    omega
+  · exact hL
+
+theorem tapPad_zero_of_dvd (L n : Nat) (h : (n - 1) % L = 0) : tapPad L n = 0 := by
+  unfold tapPad; simp [h]
 
 /-- linear phase, power-of-two `L`, `Fn == L`: the length is `2·L·q + 1` -/
 theorem dft_lin_form (i : DftIn) (hl : i.lin = true) (hp : isPow2L i.L = true) (hf : i.fnEqL = true) :
